@@ -618,7 +618,12 @@ func GenClosedSystemScript(t *rapid.T, thorough bool) *Script {
 	o := mixedOpts(thorough)
 	o.Faults, o.BindFailures, o.MIG, o.Completions, o.Terminating, o.MinRuntime = false, false, false, false, false, false
 	o.MaxWorkloads = 7
-	s := GenScript(t, "C15", "closed-system", o)
+	var s *Script
+	if chance(t, "starved", 35) {
+		s = genStarvedQueueWorld(t, o)
+	} else {
+		s = GenScript(t, "C15", "closed-system", o)
+	}
 	s.Config.SaturationMultiplier = pick(t, "saturation", "", "1.5", "3")
 	rounds := 14
 	if thorough {
@@ -845,6 +850,64 @@ func GenC20Script(t *rapid.T, thorough bool) *Script {
 	nt := rapid.IntRange(0, 40).Draw(t, "tapelen")
 	for j := 0; j < nt; j++ {
 		c.Tape = append(c.Tape, rapid.IntRange(0, 7).Draw(t, "tape"))
+	}
+	return s
+}
+
+
+// genStarvedQueueWorld (C15): one node of whole GPUs; a greedy queue running single-GPU workloads above its quota and
+// a starved queue below its quota whose pending workloads differ in size (a large head that can never reclaim enough,
+// smaller ones behind it that can). Whole-GPU pods only, so that the only question is who is entitled to what.
+func genStarvedQueueWorld(t *rapid.T, o GenOpts) *Script {
+	s := &Script{Prop: "C15", Profile: "closed-starved-queue"}
+	s.MapSeed = rapid.Uint64Range(1, 1<<62).Draw(t, "mapseed")
+	s.Config = genConfig(t, o)
+	s.Config.Actions = []string{"allocate", "consolidation", "reclaim", "preempt", "stalegangeviction"}
+	g := pick(t, "sgpus", 3, 4, 6, 8)
+	s.World.Nodes = []NodeSpec{{Name: "n0", CPUm: 64000, MemMi: 262144, Pods: 110, GPUs: int64(g)}}
+	unl := QRes{Quota: -1, Limit: -1, Weight: 1}
+	ng := rapid.IntRange(1, g).Draw(t, "sgreedy")
+	ns := rapid.IntRange(0, g-ng).Draw(t, "sstarvedrunning")
+	qa := max(0, ng-rapid.IntRange(0, 2).Draw(t, "squotaA")) // the greedy queue is at or a little above its quota
+	qb := min(g, ns+rapid.IntRange(0, 2).Draw(t, "squotaB")) // the starved queue is at or a little below its quota
+	if chance(t, "sflagoff", 60) {
+		s.Config.ConsolidatingReclaim = false
+	}
+	s.World.Queues = []QueueSpec{
+		{Name: "greedy", GPU: QRes{Quota: float64(qa), Limit: -1, Weight: pick(t, "swa", 0.0, 1.0, 2.0)}, CPU: unl, Mem: unl},
+		{Name: "starved", GPU: QRes{Quota: float64(qb), Limit: -1, Weight: pick(t, "swb", 0.0, 1.0, 2.0)}, CPU: unl, Mem: unl},
+	}
+	s.World.PriorityClasses = []PriorityClassSpec{{"train", 50}, {"build", 100}, {"inference", 125}, {"low", 25}}
+	used := 0
+	add := func(name, queue string, gpus int, running bool, age int) {
+		w := WorkloadSpec{Name: name, Queue: queue, MinMember: 1, PriorityClass: "train", AgeSec: int64(age)}
+		p := PodSpec{Name: name + "-p0", CPUm: 100, MemMi: 128, GPUs: int64(gpus), State: "pending"}
+		if running {
+			p.State, p.Node = "running", "n0"
+			ago := int64(rapid.IntRange(100, 10000).Draw(t, "sls"))
+			w.LastStartAgo = &ago
+		}
+		w.Pods = []PodSpec{p}
+		s.World.Workloads = append(s.World.Workloads, w)
+	}
+	for i := 0; i < ng && used < g; i++ {
+		add(fmt.Sprintf("g%d", i), "greedy", 1, true, 1000+i)
+		used++
+	}
+	for i := 0; i < ns; i++ {
+		add(fmt.Sprintf("s%d", i), "starved", 1, true, 2000+i)
+		used++
+	}
+	np := rapid.IntRange(1, 3).Draw(t, "spending")
+	for i := 0; i < np; i++ {
+		size := 1
+		if i == 0 && chance(t, "sbighead", 60) {
+			size = rapid.IntRange(2, g).Draw(t, "spgpus") // a large head of the queue
+		}
+		add(fmt.Sprintf("sp%d", i), "starved", size, false, 3000-100*i) // older = earlier in the queue
+	}
+	if chance(t, "sgpending", 40) {
+		add("gp0", "greedy", rapid.IntRange(1, 2).Draw(t, "gpgpus"), false, 500)
 	}
 	return s
 }
